@@ -130,6 +130,7 @@ class ReturnExc(Exception):
     def __init__(self, v): self.v = v
 class BreakExc(Exception): pass
 class ContinueExc(Exception): pass
+class RestartPath(Exception): pass
 class EngineError(Exception): pass
 class Unsupported(EngineError): pass
 
